@@ -50,6 +50,20 @@ def run(ctx, replay=None):
             if not np.all(np.isfinite(edges)):
                 ctx.count('degenerate_no_pair_selected')
                 edges = np.array([])
+            elif case['bin_func'] == 'ward' and int(np.sum(mask)) > case['n_lags']:
+                # the lag edges of the directional variogram are built from the SELECTED pairs (within the maximum lag) only
+                try:
+                    from sklearn.cluster import AgglomerativeClustering
+                    selD = D[mask]
+                    mlv = min(float(DV.maxlag), float(selD.max())) if DV.maxlag is not None else float(selD.max())
+                    dref = selD[selD <= mlv]
+                    lab = AgglomerativeClustering(linkage='ward', n_clusters=case['n_lags']).fit(dref.reshape(-1, 1)).labels_
+                    cen = np.sort([dref[lab == i_].mean() for i_ in np.unique(lab)])
+                    eref = np.array([(lo_ + up_) / 2 for lo_, up_ in zip([0] + list(cen)[:-1], cen)])
+                    if len(eref) != len(edges) or not all(gen.close(a_, b_, 1e-10, 1e-12) for a_, b_ in zip(eref, edges)):
+                        ctx.problem('oracle', "the 'ward' lag edges are not built from the selected pairs within the maximum lag", case, {'edges': edges.tolist(), 'reference': eref.tolist()}, {'what': 'directional-ward-edges'})
+                except Exception as e:
+                    ctx.count('ward_reference_rejected', type(e).__name__)
             ctx.disagreements_checked += 1
             # ---- (T) validation: the translated definitions evaluated on the implementation's own angles
             if irs is not None:
@@ -114,8 +128,10 @@ def run(ctx, replay=None):
                 if len(set(dsel.tolist())) >= 2 and case['maxlag'] is None:
                     if case['bin_func'] == 'even':
                         want_e = np.linspace(0, dsel.max(), case['n_lags'] + 1)[1:]
-                    else:
+                    elif case['bin_func'] == 'uniform':
                         want_e = np.array([np.percentile(dsel, 100.0 * (q + 1) / case['n_lags']) for q in range(case['n_lags'])])
+                    else:
+                        want_e = edges          # ward: compared with its own reference above
                     if len(want_e) != len(edges) or not all(gen.close(a, b, 1e-10) for a, b in zip(want_e, edges)):
                         ctx.problem('oracle', 'lag edges are not derived from the selected pairs only', case, {'edges': edges.tolist(), 'from_selected': want_e.tolist()}, {'what': 'edges-from-selected'})
                 lo = [0.0] + edges.tolist()[:-1]
